@@ -36,6 +36,12 @@ func (s *Stats) Merge(o *Stats) {
 	}
 }
 
+// sentinels fill the spare capacity of the slices given to multi-scalar calls.
+var (
+	sentinelPoint  = new(edwards25519.Point)
+	sentinelScalar = new(edwards25519.Scalar)
+)
+
 // basepointUsed remembers (per OS process) whether a lazily built table has
 // been used yet: the first use in a process is the cold one.
 var basepointUsed = map[string]bool{}
@@ -194,11 +200,41 @@ func (r *Run) resolve(op *OpDesc, c *Call) *Operands {
 	if !inRange(c.P, len(w.P)) || !inRange(c.S, len(w.S)) || !inRange(c.E, len(w.E)) {
 		return nil
 	}
-	for _, i := range c.P {
-		o.AP = append(o.AP, w.P[i])
-	}
-	for _, i := range c.S {
-		o.AS = append(o.AS, w.S[i])
+	if op.Multi {
+		// the slices handed to a multi-scalar call are windows with spare capacity
+		// (sentinel entries behind the window) in every second call, and nil
+		// rather than empty for zero terms in every second call
+		pad := 0
+		if r.StepNo%2 == 0 {
+			pad = 3
+		}
+		if len(c.P) > 0 || r.StepNo%2 == 0 {
+			bp := make([]*edwards25519.Point, len(c.P)+pad)
+			for k, i := range c.P {
+				bp[k] = w.P[i]
+			}
+			for k := len(c.P); k < len(bp); k++ {
+				bp[k] = sentinelPoint
+			}
+			o.AP = bp[:len(c.P)]
+		}
+		if len(c.S) > 0 || r.StepNo%2 == 0 {
+			bs := make([]*edwards25519.Scalar, len(c.S)+pad)
+			for k, i := range c.S {
+				bs[k] = w.S[i]
+			}
+			for k := len(c.S); k < len(bs); k++ {
+				bs[k] = sentinelScalar
+			}
+			o.AS = bs[:len(c.S)]
+		}
+	} else {
+		for _, i := range c.P {
+			o.AP = append(o.AP, w.P[i])
+		}
+		for _, i := range c.S {
+			o.AS = append(o.AS, w.S[i])
+		}
 	}
 	if !op.OutElems {
 		for _, i := range c.E {
@@ -469,8 +505,15 @@ func (r *Run) execLib(op *OpDesc, c *Call) []*Violation {
 	var sliceHdrS []*edwards25519.Scalar
 	var sliceHdrP []*edwards25519.Point
 	if op.Multi {
-		sliceHdrS = append(sliceHdrS, ops.AS...)
-		sliceHdrP = append(sliceHdrP, ops.AP...)
+		// the whole backing arrays, spare capacity included
+		sliceHdrS = append(sliceHdrS, ops.AS[:cap(ops.AS)]...)
+		sliceHdrP = append(sliceHdrP, ops.AP[:cap(ops.AP)]...)
+		if cap(ops.AP) > len(ops.AP) {
+			st.Inc("probe/multi_slices_with_spare_capacity")
+		}
+		if ops.AP == nil {
+			st.Inc("probe/multi_nil_slices")
+		}
 	}
 	out := op.run(ops)
 
@@ -812,14 +855,15 @@ func (r *Run) frame(op *OpDesc, c *Call, pre *Snap, ops *Operands, bPre []byte, 
 		vs = append(vs, r.viol("C11", "frame", op.Name+"/bytes", op.Name+" modified its input byte slice (or the caller's buffer around it)"))
 	}
 	if op.Multi {
+		fullS, fullP := ops.AS[:cap(ops.AS)], ops.AP[:cap(ops.AP)]
 		for i := range hS {
-			if ops.AS[i] != hS[i] {
+			if fullS[i] != hS[i] {
 				vs = append(vs, r.viol("C11", "frame", op.Name+"/scalars-slice", op.Name+" modified the scalars slice"))
 				break
 			}
 		}
 		for i := range hP {
-			if ops.AP[i] != hP[i] {
+			if fullP[i] != hP[i] {
 				vs = append(vs, r.viol("C11", "frame", op.Name+"/points-slice", op.Name+" modified the points slice"))
 				break
 			}
